@@ -27,6 +27,7 @@ RULE = (
 )
 ASSUMPTIONS = [
     "the table is the one in newdocs/src/user-guide.md; precedence system error > fixed > failures > success ('never masked')",
+    "a plugins/extensions sub-command whose filter or id matches nothing is taken to be the no-files category (the tool's own convention: 1 under default, 0 under minimal)",
     "when --return-code-scheme and mode.return_code_scheme are both given, the explicit argument decides (command line is the most specific configuration layer)",
     "document facts (clean? has failures? fix changes bytes?) come from solo reference executions of each document with the same configuration",
     "outcomes the table does not mention are not judged: documents with pragma errors are kept out of 'success' scenarios, fix runs that change nothing over documents with unfixable failures are not judged, injected OS errors are not used",
@@ -110,9 +111,13 @@ def generate(rng, tier, index):
         sc["argv_tail"] = rng.choice([["version"], ["plugins", "list"], ["plugins", "list", "--all"], ["plugins", "info", "md001"], ["extensions", "list"], ["extensions", "info", "front-matter"], ["plugins", "list", "md0*"]])
         sc["expect"] = {"kind": "fixed-category", "category": "success"}
     elif construction == "no_files":
-        how = rng.choice(["missing", "ineligible", "glob", "emptydir", "list-empty", "dir-no-md"])
+        how = rng.choice(["missing", "ineligible", "glob", "emptydir", "list-empty", "dir-no-md", "sub-nomatch", "sub-nomatch"])
         command = rng.choice(["scan", "fix"]) if how != "list-empty" else "scan"
-        if how == "missing":
+        if how == "sub-nomatch":
+            # convention of the tool: a sub-command filter that matches nothing is
+            # reported like "nothing to process" (1 / 0)
+            sc["argv_tail"] = rng.choice([["plugins", "list", "zz-no-such-rule*"], ["plugins", "info", "zz999"], ["plugins", "info", "no-such-rule-name"], ["extensions", "info", "no-such-extension"]])
+        elif how == "missing":
             sc["argv_tail"] = [command, "nosuch.md"]
         elif how == "ineligible":
             sc["files"] = workload.files_to_spec({"notes.txt": b"# T\n"})
